@@ -59,6 +59,10 @@ def gen_case(rng, k, workdir):
         pos = np.array([[1.0 + 1.25 * i, 2.0, 3.0] for i in range(len(els))])
         cell = np.diag(L)
         c = dict(c, pel=["C", "N"], pp=np.array([[0, 0, 0], [1.25, 0, 0]]), hints=None)
+    if k % 12 == 6:
+        # a primitive one-atom cell (its charge file has a single line)
+        els, pos, cell = ["Zn"], np.array([[1.0, 2.0, 3.0]]), np.diag([8.0, 9.0, 10.0])
+        c = dict(c, pel=["Zn"], pp=np.array([[0.0, 0.0, 0.0]]), hints=None)
     # elements whose UFF key is easily confused (S / B / I) for --pp
     if k % 3 == 1:
         extra = ["S", "B", "I"][(k // 3) % 3]
@@ -71,11 +75,13 @@ def gen_case(rng, k, workdir):
                 break
         else:
             els = els[:-1]
-    inp = os.path.join(d, "in." + infmt)
+    # file names with more than one dot are ordinary file names: the type is what follows the LAST dot
+    dotted = (k % 4 == 1)
+    inp = os.path.join(d, ("in.v1.2." if dotted else "in.") + infmt)
     write_struct(inp, els, pos, cell, infmt)
     find = os.path.join(d, "find.cml")
     write_struct(find, c["pel"], c["pp"], None, "cml")
-    opts = dict(inp=inp, out=os.path.join(d, "out." + outfmt), find=None, replace=None, frac=1.0, atol=0.05, ap1=None, ap2=None, op=None, dump=None, uc=None,
+    opts = dict(inp=inp, out=os.path.join(d, ("out.0.50." if dotted else "out.") + outfmt), find=None, replace=None, frac=1.0, atol=0.05, ap1=None, ap2=None, op=None, dump=None, uc=None,
                 charges=None, replicate=None, mic=None, framework=None, pp=False)
     mode = ["replace", "find-only", "replace", "convert", "replace", "replace-without-find"][k % 6]
     if mode in ("replace", "find-only"):
